@@ -3,6 +3,7 @@
 import io
 from .. import components
 from .util import default_alignment, bytes2datastring
+from ..util import float_to_text
 
 
 class TextWriter:
@@ -223,6 +224,9 @@ class TextWriter:
                 )
         elif opcode == "select":
             args = (f"(result {t})" for t in args[0])
+        elif opcode in ("f32.const", "f64.const"):
+            bits = 32 if opcode == "f32.const" else 64
+            args = (float_to_text(args[0], bits),)
         subtext = self._get_sub_string(args)
         if "\n" in subtext:
             return "(" + opcode + "\n" + subtext + "\n)"
